@@ -68,6 +68,13 @@ theorem filter_unchanged_of_not_canFilter (t : Ty) (v : J) (h : canFilter t = fa
 
 example : canFilter (.arr (.arr (.base .file))) = false := by decide
 
+/-- Filtering an object to a struct type yields exactly the declared members,
+in declaration order (undeclared members are dropped, nothing else is). -/
+theorem filter_struct_members (n : Bytes) (fs : Fields) (kvs : List (Bytes × J)) :
+    ∃ out, (filter (.struct n fs) (.obj kvs)).1 = .obj out ∧
+      out.map Prod.fst = fs.toList.map Prod.fst :=
+  ⟨_, filter_struct_fst n fs kvs, keys_fields_out fs _⟩
+
 /-! ### 3. validation: null everywhere, otherwise exactly the declared shape -/
 
 theorem valid_null (t : Ty) : valid t .null = true :=
